@@ -180,7 +180,7 @@ def _o_sighash(b):
     chk = tx.SolutionChecker(tx)
     try:
         v = chk._signature_for_hash_type_segwit(sc, idx, ht) if wit else chk._signature_hash(sc, idx, ht)
-    except ScriptError:
+    except Exception:      # ScriptError: the coin refuses this hash type; anything else: no digest either
         return b""
     return to_bytes_32(v)
 
@@ -684,7 +684,7 @@ def push_scripts(rng, tier):
 
 # ------------------------------------------------------------------------------------------------
 def n_scenarios(tier):
-    return (48, 12) if tier == "quick" else (3600, 1400)
+    return (60, 16) if tier == "quick" else (1300, 400)
 
 
 def scenario_seeds(rng, tier):
@@ -696,6 +696,20 @@ def scenario_seeds(rng, tier):
 def model_cases(rng, tier):
     all_sigs = []
     for seedstr, big in scenario_seeds(rng, tier):
+        try:
+            cases = list(_scenario_cases(seedstr, big, tier, all_sigs))
+        except Exception as e:  # the implementation raised while the scenario was being played: a disagreement by construction
+            tag = exn_tag(e)
+            cases = [Case("scenario_failed " + arg(seedstr.encode()), (lambda tag=tag: "!IMPL_RAISED:" + tag),
+                          {"seed": seedstr, "big": big})]
+        for c in cases:
+            yield c
+    for c in _codec_cases(rng, tier, all_sigs):
+        yield c
+
+
+def _scenario_cases(seedstr, big, tier, all_sigs):
+    if True:
         sc = gen_scenario(seedstr, big)
         states, excs = play(sc)
         tag = register(sc)          # after play: a stale scenario changes the transaction's fields
@@ -727,6 +741,9 @@ def model_cases(rng, tier):
                 for d in (list(si[1]) or (indep_parse_pushes(si[0]) or [])):
                     if indep_strict_der(d) and len(all_sigs) < 400:
                         all_sigs.append(d)
+
+
+def _codec_cases(rng, tier, all_sigs):
     brng = _random.Random("%x" % rng.getrandbits(64))
     for b in blob_stream(brng, tier, all_sigs[:60 if tier == "quick" else 400]):
         yield Case("parse_sig_ok " + arg(b), (lambda b=b: call(impl_parse_sig_ok, b)))
@@ -778,7 +795,10 @@ def chk_scenario(seedstr, big):
     state = [(b"", []) for _ in sc.inputs]
     stale = sc.stale
     if stale:
-        states, _ = play(sc)       # only to obtain the stale starting state (and the changed tx fields)
+        try:
+            states, _ = play(sc)       # only to obtain the stale starting state (and the changed tx fields)
+        except Exception as e:
+            return {"kind": "sign-raises", "detail": exn_tag(e), "pass": -1, "stale": False, "stale_pkh_inputs": []}
         state = states[0]
     # keys that effectively reached each input so far
     reached = [set() for _ in sc.inputs]
@@ -875,13 +895,17 @@ def chk_resign_other_type(seedstr, big):
 
 
 def prop_cases(rng, tier):
-    small, big = (40, 10) if tier == "quick" else (3000, 1000)
+    small, big = (50, 12) if tier == "quick" else (800, 200)
     base = "%x" % rng.getrandbits(64)
     seeds = [("%s/s%d" % (base, i), False) for i in range(small)] + [("%s/b%d" % (base, i), True) for i in range(big)]
     for seedstr, bg in seeds:
         yield PropCase("scenario", {"seed": seedstr, "big": bg}, (lambda s=seedstr, b=bg: chk_scenario(s, b)))
     for seedstr, bg in seeds[::3]:
         yield PropCase("resign", {"seed": seedstr, "big": bg}, (lambda s=seedstr, b=bg: chk_resign_other_type(s, b)))
+    # the former finding resign-stale-pkh-typeerror (fixed in /repo 689b339): sign, edit the transaction, sign again
+    for sym in SYMS:
+        for k in (K_P2PK, K_P2PKH, K_P2WPKH, K_P2SH_P2WPKH):
+            yield PropCase("stale-pkh", {"sym": sym, "kind": k}, (lambda sym=sym, k=k: chk_stale_pkh(sym, k)))
 
 
 def replay_input(check, inp):
@@ -895,7 +919,7 @@ def replay_input(check, inp):
 
 
 def chk_stale_pkh(sym="btc", kind=K_P2PKH):
-    """fixed replay of the known finding: sign a P2PKH-family input, change the transaction, sign again"""
+    """sign a single-key input, change the transaction, sign again: the stale signature must be replaced"""
     net = NETS[sym]
     inp = Inp(net, kind, 1, [(7, True)])
     sc = Scenario()
@@ -920,14 +944,10 @@ def chk_stale_pkh(sym="btc", kind=K_P2PKH):
 
 
 def classify(pc, r):
-    if r.get("kind") == "sign-raises" and r.get("detail") == "E_TYPE" and r.get("stale") and r.get("stale_pkh_inputs"):
-        return "resign-stale-pkh-typeerror"
-    return None
+    return None          # no open finding for this property
 
 
-KNOWN_REPLAYS = {
-    "resign-stale-pkh-typeerror": lambda: chk_stale_pkh("btc", K_P2PKH),
-}
+KNOWN_REPLAYS = {}
 
 
 def search(rng, tier, disagreements, known_ids):
